@@ -387,3 +387,9 @@ Definition fixed_one_inv (c : caller) (d : sysdef) : state -> bool :=
   inv_and [one_inv c d; inv_deadline_seen d; inv_expiry_wakes d].
 Definition fixed_n_inv (d : sysdef) : state -> bool :=
   inv_and [inv_ok; inv_close_wakes d; inv_error_wakes d; inv_multi d].
+(* ... and with the stored deadline re-validated when the timer fires (repair `all2`) *)
+Definition strong_tm_inv (d : sysdef) : state -> bool := inv_and [tm_inv d; inv_no_early_strong d].
+Definition strong_one_inv (c : caller) (d : sysdef) : state -> bool :=
+  inv_and [fixed_one_inv c d; inv_no_early_strong d].
+Definition strong_extend_inv (d : sysdef) : state -> bool :=
+  inv_and [inv_ok; inv_no_early_strong d; inv_expiry_wakes d].
